@@ -76,6 +76,21 @@ func c15Loop(c *Ctx) {
 				if fv == nil || fv.Name() != g.stepsField || base != ssa.Value(loop.Params[1]) {
 					return false
 				}
+				// classic loop: for i := 0; i < len(steps); i++ { steps[i] }
+				if cphi, isPhi := ia.Index.(*ssa.Phi); isPhi {
+					init0, incr := false, false
+					for _, e := range cphi.Edges {
+						if k, isK := ConstInt(e); isK && k == 0 {
+							init0 = true
+						}
+						if bo, isB := e.(*ssa.BinOp); isB && bo.Op == token.ADD && bo.X == ssa.Value(cphi) {
+							if one, isOne := ConstInt(bo.Y); isOne && one == 1 {
+								incr = true
+							}
+						}
+					}
+					return init0 && incr && len(cphi.Edges) == 2
+				}
 				inc, ok := ia.Index.(*ssa.BinOp)
 				if !ok || inc.Op != token.ADD {
 					return false
